@@ -17,7 +17,11 @@ LEVEL_TEXT = ("trace log: TLC model-checks the recorder specification (per-threa
               "one process per history, the file is parsed by a strict JSON reader and the relevant entries per tid are compared with the "
               "admissible contents TLC computed; the same runs and driver-generated long logs (concurrent: exactly one storage chunk, one "
               "more, one less, three chunks, up to 8 threads; sequential: up to 16 threads created one after the other beside a long-lived "
-              "thread) are validated by TLC against the trace specification. "
+              "thread) are validated by TLC against the trace specification; recorder sessions: several instances of the exported class TraceRecorder, "
+              "created, saved and destroyed at different times, with the same threads recording into all of them under names from shared "
+              "literals, equal text at other addresses and one scratch buffer whose text differs per recorder - the states of TLC's graph "
+              "are replayed on real recorder instances (allocation churn after every destruction, ASan) and seeded random session "
+              "executions are validated per recorder by TLC. "
               "images: TLC checks the laws of the index map of each of the six writers on the whole bounded domain (in-bounds, bijection "
               "between payload positions and selected input components, row involution, header channels), enumerates every size of the "
               "domain, and every case is written by the real writer from an exact-size heap block under ASan/UBSan and decoded by an "
@@ -34,7 +38,9 @@ LEVEL_NOTE = ("bounded: images - sizes 1..3 x 1..3, 5x2, 1x7, 7x1 (thorough: + 1
               "length <= 5 (thorough 6) on <= 3 threads living until saveLog and of total length <= 3 (thorough 4) with every pattern of "
               "thread lifetimes, nesting depth <= 3, names / categories / counter values chosen by thread and position, "
               "law checking on 2 threads x 3 events (thorough 3 x 3 in creation order and 2 x 4), long logs of 0, 1, 8191, 8192, 8193, 16384, 16385, 24576 events per "
-              "thread on 1..8 concurrently recording threads.  Not covered (not in the statement): names needing JSON escaping, counter "
+              "thread on 1..8 concurrently recording threads.  sessions: 2 recorders x 2 threads x <= 3 (thorough 4) events for the graph, "
+              "4 private recorders + the global one x 3 threads in random executions.  Not covered (not in the statement): one pointer carrying "
+              "two texts inside one recorder (documented limitation of the pointer-keyed cache), names needing JSON escaping, counter "
               "values >= 2^31, time stamps, cpu statistics, thread names, detached threads, endEvent "
               "without a begin, unwritable paths.  Trusted: TLC, the drivers' independent PNM/PFM reader and strict JSON reader, the "
               "injective code <-> byte / float mapping, ASan/UBSan as the observation of out-of-bounds reads, g++/libstdc++")
@@ -64,7 +70,7 @@ def canon_history(h):
     """SaveLog steps: the list of admissible log contents (exp.alt) is moved beside exp (the driver reports one content, not
     a list) and every list of per-tid sequences is brought into the canonical order"""
     for st in h:
-        if st.get("a") == "SaveLog":
+        if st.get("a") in ("SaveLog", "RSave"):
             e = st.get("exp", {})
             if "alt" in e:
                 st["alt"] = e.pop("alt")
@@ -173,16 +179,16 @@ def report_mismatches(chk, histories, res, rc, stderr, tag, sig_prefix, meta, ex
 # ---------------------------------------------------------------------------
 # trace log: histories from TLC's state graph
 # ---------------------------------------------------------------------------
-def graph_from_edges(chk, cfg, tag):
-    """TLC's complete state graph of TraceLogGen, exported edge by edge by TLC itself (one JSON line per transition)"""
+def graph_from_edges(chk, cfg, tag, module="TraceLogGen"):
+    """TLC's complete state graph of a ...Gen module, exported edge by edge by TLC itself (one JSON line per transition)"""
     d = os.path.join(tla.WORK, "graphs")
     os.makedirs(d, exist_ok=True)
     path = os.path.join(d, "%s-%d.ndjson" % (tag, os.getpid()))
     if os.path.exists(path):
         os.remove(path)
-    r = tla.run_tlc(os.path.join(SPEC_LOG, "TraceLogGen.tla"), os.path.join(SPEC_LOG, cfg), workers=4, timeout=3000, env={"EDGES": path}, tag=tag)
+    r = tla.run_tlc(os.path.join(SPEC_LOG, module + ".tla"), os.path.join(SPEC_LOG, cfg), workers=4, timeout=3000, env={"EDGES": path}, tag=tag)
     if not r.ok:
-        raise tla.InfraError("generation model TraceLogGen failed: violated=%s error=%s\n%s" % (r.violated, r.error, r.out[-2000:]))
+        raise tla.InfraError("generation model " + module + " failed: violated=%s error=%s\n%s" % (r.violated, r.error, r.out[-2000:]))
     ag = adt.AbsGraph()
 
     def idx(a):
@@ -205,7 +211,7 @@ def graph_from_edges(chk, cfg, tag):
                 if isinstance(j, str):      # CSVWrite prints the JSON text as a quoted TLA+ string
                     j = json.loads(j)
             except ValueError:
-                raise tla.InfraError("edge export of TraceLogGen has a damaged line %d" % nlines)
+                raise tla.InfraError("edge export of %s has a damaged line %d" % (module, nlines))
             if "init" in j:
                 i = idx(j["init"])
                 if i not in ag.init:
@@ -229,7 +235,7 @@ def graph_from_edges(chk, cfg, tag):
     for s_ in ag.edges:
         ag.edges[s_].sort(key=lambda e: adt._canon(e[0]))
     if not ag.init or ag.nedges == 0:
-        raise tla.InfraError("TraceLogGen exported no graph")
+        raise tla.InfraError(module + " exported no graph")
     if nlines != r.generated:
         raise tla.InfraError("edge export inconsistent with TLC statistics: %d lines, %d states generated" % (nlines, r.generated))
     return ag, r
@@ -498,6 +504,223 @@ def note_lifetimes(chk, sequential, n_recording, o):
 
 
 # ---------------------------------------------------------------------------
+# recorder sessions (TraceSessions): several TraceRecorder instances, the same threads recording into all of them
+# ---------------------------------------------------------------------------
+SESSION_REC = {"RMarker", "RCounter", "RBegin", "REnd"}
+
+
+def session_histories(ag, seed, quick):
+    """One history per selected abstract state: BFS path to it, then RSave of every open recorder.  Selected: the states in which
+    a recorder has been destroyed while another is open (names cached for a recorder that no longer exists; quick: a seeded sample
+    of them), and a seeded sample of the other states with an open recorder."""
+    parent = {}
+    dq = deque()
+    for s in ag.init:
+        parent[s] = None
+        dq.append(s)
+    while dq:
+        s = dq.popleft()
+        for step, d in ag.edges.get(s, []):
+            if d not in parent:
+                parent[d] = (s, step)
+                dq.append(d)
+
+    def path_to(s):
+        p = []
+        while parent[s] is not None:
+            ps, step = parent[s]
+            p.append(step)
+            s = ps
+        p.reverse()
+        return p
+
+    hot, rest = [], []
+    for s in sorted(parent):
+        st = ag.states[s]["rstate"]
+        if "open" not in st:
+            continue
+        (hot if "gone" in st else rest).append(s)
+    cap_hot, cap = (1500, 500) if quick else (15000, 5000)
+    if len(hot) > cap_hot:
+        hot = sorted(random.Random(seed + 1).sample(hot, cap_hot))
+    if len(rest) > cap:
+        rest = sorted(random.Random(seed).sample(rest, cap))
+    hs = []
+    for s in hot + rest:
+        saves = [step for step, d in ag.edges.get(s, []) if step["a"] == "RSave"]
+        if not saves:
+            raise tla.InfraError("state with an open recorder but without RSave transition")
+        hs.append(path_to(s) + saves)
+    return hs, len(hot), len(rest)
+
+
+def rand_session_actions(rnd, n):
+    """inputs only: a random session execution (the guards kept here only keep the input inside the API's preconditions; the
+    trace specification checks them again)"""
+    acts = []
+    created, opened, recorded = 0, [], set()
+    depth = {}
+    lastsrc = {}
+
+    def rec_action():
+        r = rnd.choice(opened + [0] if rnd.random() < 0.85 and opened else [0] + opened)
+        t = rnd.randint(1, 3)
+        x = rnd.random()
+        d = depth.get((r, t), 0)
+        if x < 0.12 and d > 0:
+            depth[(r, t)] = d - 1
+            return {"a": "REnd", "arg": {"r": r, "t": t, "src": "", "csrc": "", "val": 0}}
+        src = lastsrc[t] if t in lastsrc and rnd.random() < 0.55 else rnd.choice(["L1", "L2", "D", "BUF"])
+        lastsrc[t] = src
+        recorded.add(r)
+        if x < 0.30 and d < 3:
+            depth[(r, t)] = d + 1
+            return {"a": "RBegin", "arg": {"r": r, "t": t, "src": src, "csrc": rnd.choice(["", "L1", "L2", "BUF"]), "val": 0}}
+        if x < 0.45:
+            return {"a": "RCounter", "arg": {"r": r, "t": t, "src": src, "csrc": "", "val": rnd.randint(0, 10 ** 6)}}
+        return {"a": "RMarker", "arg": {"r": r, "t": t, "src": src, "csrc": rnd.choice(["", "", "L2"]), "val": 0}}
+
+    for _ in range(n):
+        x = rnd.random()
+        if x < 0.10 and created < 4:
+            created += 1
+            opened.append(created)
+            acts.append({"a": "RCreate", "arg": {"r": created}})
+        elif x < 0.20 and opened:
+            r = rnd.choice(opened)
+            if r in recorded:
+                opened.remove(r)
+                acts.append({"a": "RDestroy", "arg": {"r": r}})
+        elif x < 0.32:
+            acts.append({"a": "RSave", "arg": {"r": rnd.choice(opened + [0]), "pname": rnd.choice(["", "proc"]), "raw": True}})
+        else:
+            acts.append(rec_action())
+    for r in opened + [0]:
+        acts.append({"a": "RSave", "arg": {"r": r, "pname": "", "raw": True}})
+    return acts
+
+
+def session_lines(acts, r):
+    if "crash" in r or "timeout" in r:
+        kind = "crash" if "crash" in r else "timeout"
+        k = r[kind].get("step", 0)
+        return [{"e": kind, "during": acts[k]["a"] if 0 <= k < len(acts) else None, "obs": r[kind]}]
+    lines = []
+    kind = {"RBegin": "B", "REnd": "E", "RMarker": "i", "RCounter": "C"}
+    for st, o in zip(acts, r["obs"]):
+        a, arg = st["a"], st["arg"]
+        if "unexpected_exception" in o:
+            lines.append({"e": "crash", "during": a, "obs": o})
+            break
+        if a == "RCreate":
+            lines.append({"e": "Create", "r": arg["r"]})
+        elif a == "RDestroy":
+            lines.append({"e": "Destroy", "r": arg["r"]})
+        elif a in SESSION_REC:
+            lines.append({"e": "Rec", "r": arg["r"], "t": arg["t"], "k": kind[a], "name": o.get("name", ""), "cat": o.get("cat", ""), "val": arg.get("val", 0)})
+        elif a == "RSave":
+            if o.get("json") != "wellformed":
+                lines.append({"e": "malformed", "r": arg["r"], "why": o.get("why"), "head": o.get("head"), "tail": o.get("tail")})
+                break
+            if "log" not in o:
+                raise tla.InfraError("driver did not report the raw log of a session")
+            lines.append({"e": "Save", "r": arg["r"], "log": o["log"]})
+    return lines
+
+
+def validate_sessions(chk, execs, acts, tag):
+    if not execs:
+        return
+    acc, rej, stats = trace.validate(os.path.join(SPEC_LOG, "TraceSessionsTrace.tla"), os.path.join(SPEC_LOG, "TraceSessionsTrace.cfg"),
+                                     execs, tag, workers=1, timeout=2400, reset_key="e", max_rejections=6)
+    chk.cov["traces_validated_against_impl"] += acc + len(rej)
+    chk.cov.setdefault("trace_events_validated", 0)
+    chk.cov["trace_events_validated"] += stats["events"]
+    chk.log("trace validation %s: %d session executions accepted, %d rejected, %d lines, %d TLC run(s), %.1fs"
+            % (tag, acc, len(rej), stats["events"], stats["tlc_runs"], stats["wall"]))
+    chk.cov["models"].append({"module": "TraceSessionsTrace/" + tag, "executions": acc + len(rej), "rejected": len(rej), "lines": stats["events"],
+                              "distinct_states": stats["states"], "wall_s": round(stats["wall"], 1),
+                              "what": "seeded random session executions of the real recorders + their parsed log files, validated per recorder"})
+    for rj in rej:
+        ev = rj["event"]
+        e = ev.get("e")
+        field = {"malformed": "json", "crash": "crash", "timeout": "timeout", "Save": "log-rejected"}.get(e, "trace-rejected")
+        sig = "tracing/%s(sessions=random)/%s" % (ev.get("during") or "RSave", field)
+        what = "tracing: session execution rejected by TraceSessionsTrace at line %d of %d: %s" % (rj["line"], len(execs[rj["exec"]]), json.dumps(ev)[:500])
+        chk.violation(sig, what, {"kind": "session-trace", "property": chk.pid, "tag": tag, "actions": acts[rj["exec"]], "rejected_at": rj["line"],
+                                  "context": execs[rj["exec"]][max(0, rj["line"] - 4):rj["line"] + 1]})
+
+
+def start_sessions_graph(chk, quick):
+    """TLC's state graph of the sessions instance, computed beside the other parts (the thread touches nothing of chk)"""
+    box = {}
+    gcfg = "TraceSessionsGen.cfg" if quick else "TraceSessionsGen_thorough.cfg"
+
+    def work():
+        try:
+            box["g"] = graph_from_edges(chk, gcfg, "c20-sessions-gen", module="TraceSessionsGen")
+        except Exception as ex:
+            box["ex"] = ex
+    th = threading.Thread(target=work)
+    th.start()
+    return th, box, gcfg
+
+
+def run_sessions(chk, quick, tmp, rnd, pending):
+    exe = build.build("drv_tracelog", san=SAN)
+    meta = {"tmpdir": tmp}
+    th, box, gcfg = pending
+    th.join()
+    if "ex" in box:
+        raise box["ex"]
+    ag, r = box["g"]
+    chk.add_model("TraceSessionsGen/" + gcfg, r,
+                  "recorder sessions: %d abstract states, %d abstract transitions; invariant SessionLaw (a recorder's log is accepted for it, "
+                  "another recorder's only when they recorded the same), action properties GSaveAgrees, GRecordAgrees" % (len(ag.states), ag.nedges))
+    hs, nhot, nrest = session_histories(ag, chk.seed, quick)
+    hs = [canon_history(h) for h in sort_keys(hs)]
+    chk.count_actions(hs)
+    chk.require_actions(["RCreate", "RDestroy", "RMarker", "RCounter", "RBegin", "REnd", "RSave"])
+    classes = {st["cls"] for h in hs for st in h if st["a"] == "RSave"}
+    need = {"log=nonempty,sessions=after-destroy", "log=nonempty,sessions=overlapping", "log=nonempty,sessions=single", "log=empty,sessions=after-destroy"}
+    if not need <= classes:
+        raise tla.InfraError("vacuity guard: RSave classes never exercised: %s" % sorted(need - classes))
+    res, rc, stderr, wall = run_parallel(exe, hs, "c20-sessions", 12, meta)
+    canon_results(res)
+    n = report_mismatches(chk, hs, res, rc, stderr, "c20-sessions", "tracing", meta, exe)
+    same = sum((((res.get(i) or {}).get("obs") or [{}])[-1] or {}).get("same_ptr_after_destroy", 0) for i in range(len(hs)))
+    chk.log("tracing sessions: %d histories (one process each; %d with a destroyed and an open recorder, %d others) replayed on real "
+            "TraceRecorder instances (%d mismatching) in %.1fs" % (len(hs), nhot, nrest, n, wall))
+    chk.cov["distinct_nontrivial"] += adtcheck._nontrivial_distinct(hs, SESSION_REC)
+    smp = next((h for h in hs if sum(1 for st in h if st["a"] == "RDestroy") == 1 and sum(1 for st in h if st["a"] in SESSION_REC) == 2
+                and len({st["arg"]["src"] for st in h if st["a"] == "RMarker"}) == 1 and h[-1]["cls"] == "log=nonempty,sessions=after-destroy"), hs[len(hs) // 2])
+    chk.add_sample({"kind": "history", "object": "recorder sessions", "steps": smp}, maxn=12)
+
+    # seeded random session executions, validated by TLC
+    nexec = 80 if quick else 1500
+    acts = [rand_session_actions(rnd, rnd.randint(20, 60)) for _ in range(nexec)]
+    chk.count_actions(acts)
+    res, rc, stderr, wall = run_parallel(exe, acts, "c20-sessions-rec", 12, meta)
+    execs = []
+    for i, a in enumerate(acts):
+        rr = res.get(i)
+        if rr is None:
+            raise tla.InfraError("driver %s gave no result for session execution %d (rc=%s): %s" % (exe, i, rc, stderr[-1500:]))
+        execs.append(session_lines(a, rr))
+        same += next((o.get("same_ptr_after_destroy", 0) for o in reversed(rr.get("obs") or []) if isinstance(o, dict) and "same_ptr_after_destroy" in o), 0)
+    chk.cov["evaluations"] += len(acts)
+    chk.cov["distinct_nontrivial"] += len({json.dumps(a, sort_keys=True) for a in acts})
+    validate_sessions(chk, execs, acts, "c20-sessions")
+    chk.cov["sessions"] = {"state_histories": len(hs), "states_with_destroyed_and_open_recorder": nhot, "other_states_sampled": nrest,
+                           "random_executions": len(acts), "events_with_name_pointer_last_used_in_a_destroyed_recorder": same}
+    need_same = 40 if quick else 500
+    if same < need_same and not chk.violations:
+        raise tla.InfraError("vacuity guard: only %d events whose name pointer was the last one the same thread used in an earlier, destroyed "
+                             "recorder (need %d)" % (same, need_same))
+    chk.log("sessions: %d events recorded with the name pointer the same thread had last used in an earlier, already destroyed recorder" % same)
+
+
+# ---------------------------------------------------------------------------
 def make_tmp(tag):
     d = os.path.join(tla.WORK, "run", "c20-tmp-%s-%d" % (tag, os.getpid()))
     shutil.rmtree(d, ignore_errors=True)
@@ -755,14 +978,18 @@ def run(chk, replay=None):
         "their sequences then follow one another in that order; threads alive at the same time must have different tids; which tid a "
         "thread gets is not constrained; entries with ph = M and counters whose name no recorded counter uses are ignored; for end "
         "entries only the kind is constrained",
+        "sessions: inside one recorder a name pointer always carries one text (the documented precondition of the recorder's pointer-keyed "
+        "string cache); across recorders the same pointer may carry different texts; a dangling name is observed through AddressSanitizer",
         "names are plain ASCII without characters needing JSON escaping; counter values < 2^31; one stable pointer per distinct name text",
     ]
     if replay:
         return do_replay(chk, replay)
     tmp = make_tmp("run")
     try:
+        pending = start_sessions_graph(chk, quick)
         run_images(chk, quick, tmp)
         run_tracelog(chk, quick, tmp, rnd)
+        run_sessions(chk, quick, tmp, rnd, pending)
     finally:
         shutil.rmtree(tmp, ignore_errors=True)
     chk.cov["rule"] = ("image cases: TLC enumerates writer x size x buffer kind after checking the index-map laws; a case is non-trivial when the "
@@ -790,6 +1017,13 @@ def do_replay(chk, path):
             canon_results(res)
             resolve_alternatives(h, res)
             report_mismatches(chk, h, res, rc, stderr, "replay", rep["sig_prefix"], meta, exe)
+        elif rep["kind"] == "session-trace":
+            exe = build.build("drv_tracelog", san=SAN)
+            acts = rep["actions"]
+            res, rc, stderr, wall = run_parallel(exe, [acts], "replay", 1, meta)
+            if 0 not in res:
+                raise tla.InfraError("no result on replay: %s" % stderr[-1500:])
+            validate_sessions(chk, [session_lines(acts, res[0])], [acts], "replay")
         else:
             exe = build.build("drv_tracelog", san=SAN)
             src = rep["source"]
